@@ -447,6 +447,12 @@ func c08Project(c *fw.Case) {
 		c.Count("root_build_failed", 1)
 		return
 	}
+	if rng.Intn(8) == 0 {
+		if ar := aggregateDerive(rng, root); ar != nil {
+			root = ar
+			c.Count("roots_produced_by_aggregate", 1)
+		}
+	}
 	sh := root.Shadow
 	c.Count("shape:"+root.Shape, 1)
 	var reqs []string
